@@ -123,6 +123,14 @@ def run(ctx):
             seen.add('last-page')
             okr = len(removes) == 1 and removes[0][2][0] == ctrls and removes[0][2][1][0] == 'field' and removes[0][2][1][2] == '0' and removes[0][2][1][1][0] == 'elem' and not searches \
                 and o.val == ('ctor', 'Ok', (('ctor', 'None', ()),))
+            # the index must count positions of the very vector it is applied to: enumerate() directly over that vector's
+            # elements (a filter / skip / rev in between numbers a different sequence)
+            if okr:
+                src = removes[0][2][1][1][1]
+                okr = src == ('enumerate', ctrls)
+                if not okr:
+                    ctx.fail('A2.removal-index-counts-the-same-vector', 'empty cookie', loc(N.root),
+                             'the index used to remove the paging control enumerates %s, not the control vector itself: another control can be removed and the paging control left in the result' % absx.fmt(src)[:100])
             ctx.add('A2.last-page-strips-control', 'empty cookie', loc(N.root), okr, 'an empty cookie must end paging and remove exactly the paging control (by its index) from the final result')
             continue
         if empty is None:
